@@ -683,29 +683,53 @@ func checkCSVNumericInference(c *core.Ctx, rule string) {
 	}
 	c.SawFunc("datasources/csv.Creator")
 	exact, normalised := 0, false
-	ast.Inspect(fn.Decl.Body, func(n ast.Node) bool {
-		switch v := n.(type) {
-		case *ast.CallExpr:
-			s := core.ExprStr(v)
-			if strings.HasSuffix(s, ".Equals(octosql.Float)") || strings.HasSuffix(s, ".Equals(octosql.Int)") {
-				exact++
-			}
-		case *ast.IfStmt:
-			cs := core.ExprStr(v.Cond)
-			if strings.Contains(cs, "octosql.Int.Is(") && strings.Contains(cs, "octosql.Float.Is(") {
-				// the normalisation: a type admitting both loses Int
-				ast.Inspect(v.Body, func(m ast.Node) bool {
-					if as, ok := m.(*ast.AssignStmt); ok && len(as.Lhs) == 1 {
-						if _, isIx := as.Lhs[0].(*ast.IndexExpr); isIx {
+	closure := helperClosure(p, fn)
+	for _, h := range closure {
+		h := h
+		ast.Inspect(h.Decl.Body, func(n ast.Node) bool {
+			switch v := n.(type) {
+			case *ast.CallExpr:
+				s := core.ExprStr(v)
+				if strings.HasSuffix(s, ".Equals(octosql.Float)") || strings.HasSuffix(s, ".Equals(octosql.Int)") {
+					exact++
+				}
+			case *ast.IfStmt:
+				cs := core.ExprStr(v.Cond)
+				if !strings.Contains(cs, "octosql.Int.Is(") || !strings.Contains(cs, "octosql.Float.Is(") {
+					return true
+				}
+				// the normalisation: a type admitting both Int and Float loses Int — written in place (the slot is
+				// assigned under the test), or in a helper whose result is assigned to the slot it was given
+				if h == fn {
+					ast.Inspect(v.Body, func(m ast.Node) bool {
+						if as, ok := m.(*ast.AssignStmt); ok && len(as.Lhs) == 1 {
+							if _, isIx := as.Lhs[0].(*ast.IndexExpr); isIx {
+								normalised = true
+							}
+						}
+						return true
+					})
+					return true
+				}
+				for _, g := range closure {
+					ginfo := g.Info()
+					ast.Inspect(g.Decl.Body, func(m ast.Node) bool {
+						as, ok := m.(*ast.AssignStmt)
+						if !ok || len(as.Lhs) != 1 || len(as.Rhs) != 1 {
+							return true
+						}
+						ix, isIx := as.Lhs[0].(*ast.IndexExpr)
+						call, isCall := as.Rhs[0].(*ast.CallExpr)
+						if isIx && isCall && len(call.Args) == 1 && core.Callee(ginfo, call) == types.Object(h.Obj) && core.ExprStr(call.Args[0]) == core.ExprStr(ix) {
 							normalised = true
 						}
-					}
-					return true
-				})
+						return true
+					})
+				}
 			}
-		}
-		return true
-	})
+			return true
+		})
+	}
 	c.Decide(exact == 0 || normalised, rule, key, fn.Decl.Pos(), exact+1, "no inferred type admits both Int and Float",
 		fmt.Sprintf("the inference compares the column type with Int/Float by exact equality (%d places) and nothing normalises the result: once the column is nullable an integer cell after a float one (or the reverse) yields NULL | Int | Float — a column whose numbers have two types", exact))
 }
